@@ -109,6 +109,12 @@ func (atxn *AllocTxn) PostAbort() {
 	}
 }
 
+// Number of inode numbers and blocks that this transaction allocated
+// (and that PostAbort gives back).
+func (atxn *AllocTxn) NAllocated() uint64 {
+	return uint64(len(atxn.allocInums)) + uint64(len(atxn.allocBnums))
+}
+
 func (atxn *AllocTxn) AssertValidBlock(blkno common.Bnum) {
 	if blkno > 0 && (blkno < atxn.Super.DataStart() ||
 		blkno >= atxn.Super.MaxBnum()) {
